@@ -18,8 +18,18 @@ mkdir -p "$VD/evidence" "$VD/replays"
 ln -s /verif/harness "$VD/harness"; ln -s /verif/known_findings.json "$VD/known_findings.json"; ln -s /verif/scripts "$VD/scripts"; ln -s /verif/properties.jsonl "$VD/properties.jsonl"
 if [ -n "$TESTS" ]; then
   for m in v2 execution; do
-    (cd "$WT/$m" && unset GOWORK && GOFLAGS= $GO test -count=1 -vet=off -timeout 25m ./... 2>&1 | grep -v "^ok\|no test files" | tail -15) > "$VD/tests-$m.log" 2>&1
-    if grep -q "^FAIL\|^--- FAIL\|panic:" "$VD/tests-$m.log"; then echo "TESTS-FAIL $NAME module=$m"; head -20 "$VD/tests-$m.log"; else echo "TESTS-PASS $NAME module=$m"; fi
+    (cd "$WT/$m" && unset GOWORK && GOFLAGS= $GO test -count=1 -vet=off -timeout 25m ./... 2>&1 | grep -v "^ok\|no test files" | tail -40) > "$VD/tests-$m.log" 2>&1
+    if grep -q "^FAIL\|^--- FAIL\|panic:" "$VD/tests-$m.log"; then
+      # timing-sensitive packages flake on a loaded box (also on the clean tree): re-run the failed packages alone, twice
+      pk=$(grep "^FAIL[[:space:]]" "$VD/tests-$m.log" | awk '{print $2}' | sort -u | sed "s#github.com/wundergraph/graphql-go-tools/$m#.#;s#github.com/wundergraph/graphql-go-tools/v2#.#" | tr '\n' ' ')
+      ok=1
+      for rep in 1 2; do
+        (cd "$WT/$m" && unset GOWORK && GOFLAGS= $GO test -count=1 -vet=off -p 2 -timeout 25m $pk 2>&1 | tail -30) > "$VD/tests-$m-rerun$rep.log" 2>&1
+        if grep -q "^FAIL\|^--- FAIL\|panic:" "$VD/tests-$m-rerun$rep.log"; then ok=0; fi
+      done
+      if [ $ok = 1 ] && [ -n "$pk" ]; then echo "TESTS-PASS $NAME module=$m (packages $pk failed once in the full parallel run on the loaded box and passed twice when re-run alone)";
+      else echo "TESTS-FAIL $NAME module=$m"; head -20 "$VD/tests-$m.log"; fi
+    else echo "TESTS-PASS $NAME module=$m"; fi
   done
 fi
 REPO_DIR=$WT OUT_DIR=$OUT /verif/scripts/build.sh race vcheck >"$VD/build.log" 2>&1 || { echo "BUILD-FAIL $NAME"; tail -5 "$VD/build.log"; exit 3; }
